@@ -82,6 +82,13 @@ LEVEL_TEXT = (
     "storage configuration incl. Multi the essence is the one built without that handler's field), handler_fields_never_type_error; "
     "regressions of the variants before 571b1b2: hidden_field_raised_witness (one unguarded cherrypick raised), "
     "hidden_status_field_raised_witness (the two unguarded dicts.remove of StatusProgressStorage.clear raised). "
+    "ONE storage object serving MANY objects (Model/C04_Shared.lean: `_detect_marked_prefixes` as a method of a long-lived instance — memory "
+    "before, one object's annotation names -> memory after, prefixes; seeded change C04g): served_prefixes_history_independent, "
+    "served_build_history_independent (what the storage builds for an object is what a fresh storage builds, after ANY history of served "
+    "bodies), ordinary_annotation_kept_after_any_history — full strength for the code's policy (the set is local to the call); for the "
+    "remembering variant remembering_hides_after_marked_object (EVERY annotation under a prefix any earlier object had marked is dropped, "
+    "all histories) and remembered_prefixes_witness (example.com/team blue -> green on an unmarked object gives NO diff item after an "
+    "object with example.com/kopf-managed went through; the code's policy gives one). "
     "Oracle/tie only (NO theorem): the composition fetch∘store (`diff(clear(fetch(body')), clear(build(body')))` after a real "
     "store/purge/touch: key names, marker and merge are modelled, the JSON encoding is not), what handlers receive in a cycle "
     "(real process_resource_causes with several handlers, field= and whole-object mixed, all lifecycles), statelessness of the "
@@ -110,7 +117,10 @@ RULE = ("seeded, type-directed: Kubernetes-shaped bodies (nesting <= 5, empty co
         "field= incl. status fields, @on.event(field=) and handlers of another resource, 4 lifecycles; edits: payload mutations, "
         "bool<->number only, status only, nothing essential, a field appears (also with a falsy value) / disappears; quiet probes: the "
         "same object, a system-metadata bump, a foreign status write, another Kopf operator's real writes; then an operator restart "
-        "with the object unchanged or edited while down, then the deletion); a case is distinct by its canonical input and "
+        "with the object unchanged or edited while down, then the deletion; in ~35 % of the lives the SAME operator (one registry, one settings "
+        "object) also processes 1-2 MATES — objects of the same or another resource that another Kopf operator serves under a prefix P (real "
+        "writes + marker) — before the creation / between creation and edit, while the main object carries ordinary P/... annotations that a "
+        "user then edits: the whole-object handlers must be called once and get them in old/new with their exact values); a case is distinct by its canonical input and "
         "non-trivial when the diff is non-empty / the essence dropped or kept something / an error branch was hit")
 TRUSTED = ["harness/props/c04.py: the Python oracle (own applier, own RFC 7386 merge, strict JSON equality)",
            "the configuration of the model is read off the real storage objects' attributes (prefix, key, v1, field, ignored_fields)",
@@ -135,6 +145,9 @@ ASSUMPTIONS = ["numbers are integers (no floats in generated bodies)",
                "order builds without an exception (an ignored `status` before/after a status storage on a scalar status may raise in one order only)",
                "the shared-storage sequence oracle compares with a fresh storage per object: it sees state carried between objects, "
                "not a defect present in fresh and shared storages alike (those are the per-body oracle's subject)",
+               "`served` cases and mates: a user's annotation under the operator's OWN prefix is not generated there (finding C04-F11's class, the pure "
+               "level's subject); 'ordinary annotation' is judged by the object's own annotations (marker on THIS object / kopf.zalando.org / "
+               "a sub-domain of it), never by what other objects carry",
                "life cases: handlers succeed at once and return nothing (no retries, no results stored in status.<id>); the handlers' fields "
                "never cover metadata… (finding F8 is the pure level's subject, so NO failure of a life is attributed to it); sub-handlers are "
                "not generated (a sub-handler's field= is resolved against the parent's narrowed cause: semantics unspecified, see NOTES); an "
@@ -168,12 +181,15 @@ THEOREM_NAMES = [
     "stale_last_handled_witness", "field_handler_selected", "field_handler_called", "unchanged_field_not_selected",
     "field_handler_not_selected_witness",
     "hidden_field_is_absent", "handler_fields_never_type_error", "hidden_field_raised_witness", "hidden_status_field_raised_witness",
+    "served_prefixes_history_independent", "served_build_history_independent", "ordinary_annotation_kept_after_any_history",
+    "remembering_hides_after_marked_object", "remembered_prefixes_witness",
 ]
 
 QUICK_PAIRS, THOROUGH_PAIRS = 5000, 300000
 SHARD = 2500            # pairs per shard
 ESS_RATIO = 0.35        # essence cases per diff pair
 LIFE_PER_PAIRS = 8      # one life case (creation -> quiet -> edit -> quiet through the real processing core) per so many diff pairs
+SERVED_PER_PAIRS = 10   # one case of ONE storage pair serving several objects (shared annotation prefixes, another operator's markers) per so many diff pairs
 MULTI_RATIO = 0.3       # dedicated MultiDiffBaseStorage cases per essence case (beside the ~18 % multi among those)
 
 # ------------------------------------------------------------------------------------------------
@@ -796,7 +812,7 @@ SIG_ORDER = {"site": "MultiDiffBaseStorage.build", "shape": "the essence depends
 
 
 FAIL_PER_CLASS = 5
-CASE_KINDS = ("diff", "essence", "sequence", "cycle", "life")
+CASE_KINDS = ("diff", "essence", "sequence", "served", "cycle", "life")
 
 
 class Out:
@@ -1629,6 +1645,241 @@ def eval_seq_case(K: dict, case: dict, out: Out) -> None:
 
 
 # ------------------------------------------------------------------------------------------------
+# ONE operator-wide pair of storages serving MANY objects of several kinds. In an operator the storages are ONE instance each
+# (settings.persistence.diffbase_storage / .progress_storage), every object of every served kind goes through them; so what
+# they answer for an object must be a function of that object (and the configuration) alone. The objects here share annotation
+# prefixes: some are ALSO served by another Kopf-based operator persisting under a company-wide prefix P (its real writes incl.
+# the `P/kopf-managed` marker), others carry ordinary, human-set annotations `P/...` and no marker; that other operator comes
+# and leaves; users edit the ordinary annotations. (Seeded change C04g: the marked prefixes were remembered by the storage.)
+
+SIG_SERVED_STATE = {"site": "DiffBaseStorage.build/fetch (one instance, many objects)",
+                    "shape": "what a storage answers for an object depends on the objects it served before"}
+SIG_SERVED_ORD = {"site": "DiffBaseStorage.build (one instance, many objects)",
+                  "shape": "an ordinary annotation of the object is not in the essence / in the last-handled state with its exact value"}
+SIG_SERVED_DIFF = {"site": "DiffBaseStorage.build/fetch + diffs.diff (one instance, many objects)",
+                   "shape": "diff(old, new) of a served object is not exact (does not lead from old to new / empty although something differs / "
+                            "non-empty although nothing was done to the object)"}
+
+SERVED_PREFIXES = ["example.com", "corp.io", "team.example.org", "x", "kopf.dev", "a.b.c", "other-op.example.org"]
+SERVED_NAMES = ["team", "owner", "note", "sub/deep", "kopf-managed-by", "last-handled-configuration", "managed", "ключ"]
+SERVED_KINDS = [("KopfExample", None), ("Deployment", None), ("ReplicaSet", ["Deployment"]), ("ReplicaSet", []), ("ConfigMap", None)]
+
+
+def other_operator_writes(K: dict, body: dict, prefix: str) -> tuple[dict, list[str]]:
+    """What ANOTHER Kopf-based operator persisting under `prefix` does to the object: the real writes of its real storages
+    (last-handled state, touch, one progress record; the `kopf-managed` marker comes along). Returns the object and the
+    annotation names that operator wrote."""
+    B, P = K["bodies"].Body, K["patches"].Patch
+    ods = K["diffbase"].AnnotationsDiffBaseStorage(prefix=prefix)
+    ops = K["progress"].AnnotationsProgressStorage(prefix=prefix)
+    patch = P()
+    ods.store(body=B(body), patch=patch, essence=ops.clear(essence=ods.build(body=B(body))))
+    ops.touch(body=B(body), patch=patch, value="2020-01-01T00:00:00")
+    ops.store(key="their_fn", record={"started": "2020-01-01T00:00:00", "retries": 1}, body=B(body), patch=patch)
+    pj = json.loads(json.dumps(dict(patch)))
+    return merge_patch(body, pj), sorted(((pj.get("metadata") or {}).get("annotations") or {}))
+
+
+def ordinary_view(body: dict, own_prefixes: list[str]) -> dict:
+    """The ordinary annotations of an object — judged by the object's OWN annotations alone (the documented convention: a prefix is
+    another Kopf operator's when THIS object carries its marker, or it is kopf.zalando.org / a sub-domain of it)."""
+    anns = (body.get("metadata") or {}).get("annotations")
+    anns = anns if isinstance(anns, dict) else {}
+    return {k: v for k, v in anns.items() if ordinary_annotation(k, anns, own_prefixes)}
+
+
+def annotations_of(e: Any) -> dict:
+    a = ((e or {}).get("metadata") or {}).get("annotations") if isinstance(e, dict) and isinstance(e.get("metadata"), dict) else None
+    return a if isinstance(a, dict) else {}
+
+
+def gen_served_case(rng: random.Random) -> dict:
+    P = rng.choice(SERVED_PREFIXES)
+    prefixes = [P, P, P, rng.choice(SERVED_PREFIXES)]
+    n = rng.choice([2, 2, 3, 4])
+    objs = []
+    for i in range(n):
+        kind, owners = rng.choice(SERVED_KINDS)
+        anns: dict[str, str] = {}
+        for _ in range(rng.choice([0, 1, 1, 2, 3])):
+            anns[rng.choice(prefixes) + "/" + rng.choice(SERVED_NAMES)] = rng.choice(["blue", "green", "", "значение", "{}"])
+        if rng.random() < 0.3:
+            anns["note"] = "user"
+        objs.append({"kind": kind, "owners": owners, "annotations": anns, "replicas": rng.choice([1, 2, 3])})
+    steps: list[dict] = []
+    marked: set = set()
+    for _ in range(rng.choice([4, 6, 8, 10])):
+        i = rng.randrange(n)
+        r = rng.random()
+        if r < 0.22:
+            p = rng.choice(prefixes)
+            if (i, p) in marked:
+                marked.discard((i, p))
+                steps.append({"op": "unmark", "obj": i, "prefix": p})
+            else:
+                marked.add((i, p))
+                steps.append({"op": "mark", "obj": i, "prefix": p})
+        elif r < 0.55:
+            known = sorted(objs[i]["annotations"]) + [rng.choice(prefixes) + "/" + rng.choice(SERVED_NAMES), "brand-new"]
+            steps.append({"op": "edit", "obj": i, "key": rng.choice(known), "to": rng.choice(["red", "green", "v2", "", None])})
+        elif r < 0.62:
+            steps.append({"op": "spec", "obj": i, "replicas": rng.choice([4, 5, 6])})
+        steps.append({"op": "serve", "obj": i})
+    return {"kind": "served", "diffbase": copy.deepcopy(rng.choice(LIFE_DIFFBASE)), "progress": copy.deepcopy(rng.choice(LIFE_PROGRESS)),
+            "objects": objs, "steps": steps}
+
+
+def _observe_served(K: dict, ds: Any, ps: Any, body: dict) -> dict:
+    B = K["bodies"].Body
+    old = ds.fetch(body=B(body))
+    new = ds.build(body=B(body), extra_fields=[])
+    old = ps.clear(essence=old) if old is not None else None
+    new = ps.clear(essence=new)
+    return {"old": old, "new": new, "diff": canon_items(K["diffs"].diff(old, new))}
+
+
+def eval_served_case(K: dict, case: dict, out: Out) -> None:
+    ds, ps = build_diffbase(K, case["diffbase"]), build_progress(K, case["progress"])     # the ONE pair of instances of the operator
+    own = own_annotation_prefixes(K, ds, ps)
+    mcfg = model_cfg(K, ds, ps)
+    B, P = K["bodies"].Body, K["patches"].Patch
+    bodies: list[dict] = []
+    for i, o in enumerate(case["objects"]):
+        m: dict[str, Any] = {"name": f"o{i}", "namespace": "ns", "uid": f"u{i}", "resourceVersion": "1", "creationTimestamp": "2020-01-01T00:00:00Z"}
+        if o.get("owners") is not None:
+            m["ownerReferences"] = [{"kind": k, "name": "o-" + k.lower(), "uid": "o1", "apiVersion": "apps/v1"} for k in o["owners"]]
+        # (a user's annotation under the operator's OWN prefix is the subject of the open finding C04-F11 at the pure level: not this class)
+        anns0 = {k: v for k, v in (o.get("annotations") or {}).items() if k.split("/", 1)[0] not in own or "/" not in k}
+        if anns0:
+            m["annotations"] = anns0
+        bodies.append({"apiVersion": "example.com/v1", "kind": o["kind"], "metadata": m, "spec": {"replicas": o.get("replicas", 1)}})
+    theirs: dict[tuple, list[str]] = {}                 # (object, prefix) -> the annotation names the other operator wrote there
+    handled: dict[int, dict] = {}                       # object -> its ordinary annotations / spec when it was handled last
+    touched: set[int] = set()                           # objects something was done to since they were handled last
+    served_keys: list[list[str]] = []                   # the annotation names of the objects served so far, in order
+    out.evals += 1
+    out.count("served_objects", len(bodies))
+    out.count("served_diffbase", case["diffbase"]["cls"])
+    interesting = False
+    for step, s in enumerate(case["steps"]):
+        i = s["obj"]
+        body = bodies[i]
+        rp = {"kind": "served", "diffbase": case["diffbase"], "progress": case["progress"], "objects": case["objects"],
+              "steps": case["steps"][:step + 1], "failing_step": step}
+        if s["op"] == "mark":
+            if s["prefix"] in own:
+                continue                                 # (another operator under OUR prefix: not this class)
+            bodies[i], names = other_operator_writes(K, body, s["prefix"])
+            theirs[(i, s["prefix"])] = names
+            touched.add(i)
+            out.count("served_op", "another Kopf operator (prefix P) starts serving an object")
+            continue
+        if s["op"] == "unmark":
+            names = theirs.pop((i, s["prefix"]), None)
+            if names is None:
+                continue
+            anns = body["metadata"].get("annotations") or {}
+            for k in names:
+                anns.pop(k, None)
+            if not anns:
+                body["metadata"].pop("annotations", None)
+            touched.add(i)
+            out.count("served_op", "the other operator leaves the object (its annotations and marker removed)")
+            continue
+        if s["op"] == "edit":
+            if "/" in s["key"] and s["key"].split("/", 1)[0] in own:
+                continue                                 # (under the operator's own prefix: finding C04-F11's class)
+            anns = body["metadata"].setdefault("annotations", {})
+            before = ordinary_view(body, own)
+            if s["to"] is None:
+                anns.pop(s["key"], None)
+            else:
+                anns[s["key"]] = s["to"]
+            if not anns:
+                body["metadata"].pop("annotations", None)
+            touched.add(i)
+            out.count("served_op", "a user edits an ordinary annotation" if before != ordinary_view(body, own) else
+                      "a user edits an annotation under a prefix marked on this object / to the same value")
+            continue
+        if s["op"] == "spec":
+            body["spec"] = {"replicas": s["replicas"]}
+            touched.add(i)
+            out.count("served_op", "a user edits the spec")
+            continue
+        # ---- the operator's storages serve the object: what _detect_causes computes, then the own writes of a finished handling ---
+        body = copy.deepcopy(body)                       # (the later steps edit the object in place)
+        shared = _observe_served(K, ds, ps, body)
+        fresh = _observe_served(K, build_diffbase(K, case["diffbase"]), build_progress(K, case["progress"]), body)
+        rp = dict(rp, object=i, body=body, shared=shared)
+        ordn = ordinary_view(body, own)
+        others_marked = any(j != i for (j, _p) in theirs)
+        out.count("served_op", "serve: an object with ordinary annotations while ANOTHER object carries a marker" if ordn and others_marked
+                  else "serve: " + ("first time" if i not in handled else "again, untouched" if i not in touched else "again, after a foreign change"))
+        interesting = interesting or bool(ordn and others_marked)
+        # (1) from the property text alone: every ordinary annotation of the object is part of its essence, with its exact value
+        got = annotations_of(shared["new"])
+        missing = {k: v for k, v in ordn.items() if k not in got or not strict_eq(got[k], v)}
+        if missing:
+            out.fail("oracle", f"ordinary annotation(s) {sorted(missing)} of object {i} are not in its essence (their change would not count); "
+                               f"the object carries no marker for their prefix", dict(rp, missing=missing), SIG_SERVED_ORD)
+            return
+        if i in handled:
+            # (2) the last-handled state holds what was handled, the diff is exact, and it is empty iff nothing was done to the object
+            old = shared["old"]
+            lost = {k: v for k, v in handled[i]["ordinary"].items() if old is None or k not in annotations_of(old) or not strict_eq(annotations_of(old)[k], v)}
+            if old is None or lost:
+                out.fail("oracle", f"the last-handled state of object {i} " + ("is gone" if old is None else f"lacks the ordinary annotation(s) {sorted(lost)} handled last time"),
+                         dict(rp, handled_last=handled[i]), SIG_SERVED_ORD)
+                return
+            if not strict_eq(py_apply(shared["diff"], old), shared["new"]) or (not shared["diff"]) != strict_eq(old, shared["new"]):
+                out.fail("oracle", f"diff(old, new) of object {i} does not lead from old to new / is empty although they differ", rp, SIG_SERVED_DIFF)
+                return
+            changed = ordn != handled[i]["ordinary"] or not strict_eq(body["spec"], handled[i]["spec"])
+            if changed and not shared["diff"]:
+                out.fail("oracle", f"an ordinary annotation / the spec of object {i} was changed since it was handled, but the diff is empty "
+                                   f"(no update)", dict(rp, handled_last=handled[i], ordinary_now=ordn), SIG_SERVED_DIFF)
+                return
+            if i not in touched and shared["diff"]:
+                out.fail("oracle", f"nothing was done to object {i} since it was handled, but its diff is not empty (handling triggers itself)",
+                         rp, SIG_SERVED_DIFF)
+                return
+        elif shared["old"] is not None and not any(j == i for (j, _p) in theirs):
+            out.fail("oracle", f"a never-handled object ({i}) has a last-handled state", rp,
+                     {"site": "DiffBaseStorage.fetch", "shape": "never-handled object has a last-handled state"})
+            return
+        # (3) statelessness: the operator's long-lived instances answer as fresh ones do
+        for what in ("new", "old", "diff"):
+            if not strict_eq(shared[what], fresh[what]):
+                out.fail("oracle", f"the {what} the operator's storage gives for object {i} differs from that of a fresh storage: "
+                                   f"it depends on the objects served before", dict(rp, fresh=fresh), SIG_SERVED_STATE)
+                return
+        out.ask("diffbase.build + progress.clear (one storage serving many objects)", ["C04.essence", mcfg, [], body], ["ok", shared["new"]], rp)
+        leaf0 = ds.storages[0] if isinstance(ds, K["diffbase"].MultiDiffBaseStorage) and ds.storages else ds
+        detect = getattr(leaf0, "_detect_marked_prefixes", None)   # the anchored mechanism, as a method of the long-lived instance
+        if callable(detect):
+            ks = sorted(annotations_of(body))
+            out.ask("StorageKeyMarkingConvention._detect_marked_prefixes of a storage that served other objects before",
+                    ["C04.served", "stateless", list(served_keys), ks], sorted(set(detect(ks))), rp)
+            served_keys.append(ks)
+        # the handling finishes: progress record, last-handled state — the real writes, merged as the API would
+        patch = P()
+        ps.store(key="create_fn", record={"started": "2020-01-01T00:00:00", "retries": 0, "success": True}, body=B(body), patch=patch)
+        ds.store(body=B(body), patch=patch, essence=copy.deepcopy(shared["new"]))
+        nb = copy.deepcopy(merge_patch(body, json.loads(json.dumps(dict(patch)))))
+        nb["metadata"]["resourceVersion"] = str(int(nb["metadata"]["resourceVersion"]) + 1)
+        bodies[i] = nb
+        handled[i] = {"ordinary": ordinary_view(nb, own), "spec": copy.deepcopy(nb["spec"])}
+        touched.discard(i)
+        after = _observe_served(K, ds, ps, nb)
+        if after["diff"] or not strict_eq(after["new"], shared["new"]):
+            out.fail("oracle", f"the framework's own writes on object {i} (one storage, many objects) re-trigger handling", dict(rp, after=after),
+                     {"site": "DiffBaseStorage.build/fetch", "shape": "own writes visible with a shared storage"})
+            return
+    if interesting:
+        out.keys.add(digest(["served", case["diffbase"], case["progress"], case["objects"], case["steps"]]))
+
+
+# ------------------------------------------------------------------------------------------------
 # what the handlers RECEIVE: one real processing cycle (process_resource_causes) with several
 # change handlers, whole-object and field= mixed, under the all_at_once / asap lifecycles
 
@@ -1928,11 +2179,50 @@ def gen_life_case(rng: random.Random) -> dict:
     base_spec = edit.get("spec", spec)
     edit2 = rng.choice([{"spec": dict(base_spec, n=12345)}, {"labels": {"app": "z"}}, {"spec": dict(base_spec, restarted={"deep": True})},
                         {"status": {"phase": "Restarted"}}])
-    return {"kind": "life", "diffbase": copy.deepcopy(rng.choice(LIFE_DIFFBASE)), "progress": copy.deepcopy(rng.choice(LIFE_PROGRESS)),
+    case = {"kind": "life", "diffbase": copy.deepcopy(rng.choice(LIFE_DIFFBASE)), "progress": copy.deepcopy(rng.choice(LIFE_PROGRESS)),
             "body": body, "edit": edit, "edit_kind": kind, "handlers": hs, "restart": restart, "edit2": edit2,
             "delete": rng.random() < 0.4,
             "lifecycle": rng.choice(["all_at_once", "all_at_once", "asap", "shuffled", "one_by_one"]),
             "probes": [rng.choice(LIFE_PROBES), rng.choice(LIFE_PROBES)], "lseed": rng.getrandbits(32)}
+    # ---- the operator serves OTHER objects too (one registry, one settings object = one pair of storages, a memory per object):
+    # mates that another Kopf-based operator persisting under a company-wide prefix P also serves (its real writes + marker), while
+    # THIS object carries ordinary, human-set annotations under the same P and no marker; a user edits those.
+    if rng.random() < 0.35:
+        taken = spec_prefixes(case["diffbase"]) + spec_prefixes(case["progress"]) + ["other-op.example.org"]
+        P = rng.choice([p for p in SERVED_PREFIXES if p not in taken])
+        mine = {f"{P}/{n}": rng.choice(["blue", "", "значение"]) for n in rng.sample(SERVED_NAMES, rng.choice([1, 1, 2]))}
+        meta["annotations"] = dict(meta.get("annotations") or {}, **mine)
+        case["mates"] = [{"name": f"mate{j}", "prefix": rng.choice([P, P, P, "corp.io"]), "when": rng.choice(["before", "between", "both", "before"]),
+                          "res": rng.choice(["main", "main", "other"]),
+                          "annotations": rng.choice([{}, {}, {f"{P}/team": "theirs"}])} for j in range(rng.choice([1, 1, 2]))]
+        if rng.random() < 0.7:
+            k = rng.choice(sorted(mine) + [f"{P}/brand-new"])
+            case["edit"] = {"annotations": {k: rng.choice(["green", "red", None] if k in mine else ["green"])}}
+            if rng.random() < 0.3:
+                case["edit"]["spec"] = dict(spec, n=4321)
+            case["edit_kind"] = "ordinary annotation (prefix shared with a mate another Kopf operator serves)"
+    elif rng.random() < 0.08 and meta.get("annotations"):
+        k = rng.choice(sorted(meta["annotations"]))
+        case["edit"] = {"annotations": {k: rng.choice(["edited", None])}}
+        case["edit_kind"] = "annotation"
+    return case
+
+
+def spec_prefixes(spec: dict) -> list[str]:
+    """The annotation prefixes a storage spec (diff-base or progress) makes the operator's own."""
+    if spec.get("cls") == "multi":
+        return [p for s in spec["storages"] for p in spec_prefixes(s)]
+    return [spec.get("kw", {}).get("prefix", "kopf.zalando.org")]
+
+
+def mate_body(K: dict, m: dict) -> dict:
+    body = {"apiVersion": "kopf.dev/v1", "kind": "KopfExample",
+            "metadata": {"name": m["name"], "namespace": "ns", "uid": "u-" + m["name"], "resourceVersion": "3", "generation": 1,
+                         "creationTimestamp": "2020-01-01T00:00:00Z", "labels": {"app": "mate"}},
+            "spec": {"field": 1, "n": 1, "flag": True, "a": {"b": 1, "c": 2}, "list": [1]}, "data": {"k": "v"}, "status": {"phase": "Running"}}
+    if m.get("annotations"):
+        body["metadata"]["annotations"] = dict(m["annotations"])
+    return other_operator_writes(K, body, m["prefix"])[0]
 
 
 ABSENT = "\0absent"       # a marker no generated value equals
@@ -2019,6 +2309,17 @@ def apply_life_edit(body: dict, edit: dict) -> dict:
             nb["metadata"]["labels"] = copy.deepcopy(edit["labels"])
         else:
             nb["metadata"].pop("labels", None)
+    if "annotations" in edit:
+        anns = dict(nb["metadata"].get("annotations") or {})
+        for k, v in edit["annotations"].items():
+            if v is None:
+                anns.pop(k, None)
+            else:
+                anns[k] = v
+        if anns:
+            nb["metadata"]["annotations"] = anns
+        else:
+            nb["metadata"].pop("annotations", None)
     if "status" in edit:
         st = nb.get("status") if isinstance(nb.get("status"), dict) else {}
         st = dict(st)
@@ -2082,6 +2383,7 @@ class _Life:
         self.phase = "?"
         self.cycle_no = 0
         self.memory = E["inventory"].ResourceMemory()
+        self.mate_memories: dict[str, Any] = {}
         self.logger = logging.getLogger("verif.c04.life")
         self.logger.setLevel(logging.CRITICAL)
         self.lifecycle = getattr(E["lifecycles"], case["lifecycle"])
@@ -2113,6 +2415,18 @@ class _Life:
         """The operator restarts: a new memory, the object is noticed by the initial listing (resuming applies)."""
         self.memory = self.E["inventory"].ResourceMemory()
         self.memory.noticed_by_listing = True
+
+    async def meet(self, name: str, body: dict, other_resource: bool, limit: int) -> dict:
+        """The same operator (registry, settings — ONE pair of storages) processes ANOTHER object: its own memory, the
+        main resource or the other one."""
+        keep = (self.memory, self.resource, self.phase)
+        self.memory = self.mate_memories.setdefault(name, self.E["inventory"].ResourceMemory())
+        if other_resource:
+            self.resource = self.E["references"].Resource(*OTHER_RESOURCE, namespaced=True)
+        try:
+            return await self.settle(body, "mate", limit)
+        finally:
+            self.memory, self.resource, self.phase = keep
 
     async def event(self, body: dict) -> tuple[dict | None, BaseException | None]:
         """One real processing cycle for one event; returns the object as the API would hold it after the cycle's patch
@@ -2175,7 +2489,7 @@ def eval_life_cases(K: dict, cases: list[dict], out: Out) -> None:
 
 async def _eval_life(K: dict, E: dict, case: dict, out: Out) -> None:
     replay = {k: case[k] for k in ("kind", "diffbase", "progress", "body", "edit", "edit_kind", "handlers", "lifecycle", "probes", "lseed",
-                                   "restart", "edit2", "delete") if k in case}
+                                   "restart", "edit2", "delete", "mates") if k in case}
     random.seed(case["lseed"])                         # lifecycles.shuffled/randomized use the global PRNG
     hs_main = [h for h in case["handlers"] if h["res"] == "main"]
     changing = [h for h in hs_main if h["deco"] != "event"]
@@ -2348,6 +2662,50 @@ async def _eval_life(K: dict, E: dict, case: dict, out: Out) -> None:
             return None
         return st["body"]
 
+    own_pfx = own_annotation_prefixes(K, dsf, psf)
+    mate_bodies: dict[str, dict] = {}
+
+    async def meet(when: str, rp: dict) -> bool:
+        """The operator processes its other objects (the mates) at this point of the main object's life."""
+        for m in case.get("mates", []):
+            if m["when"] not in (when, "both"):
+                continue
+            mb = mate_bodies.get(m["name"]) or mate_body(K, m)
+            st = await life.meet(m["name"], mb, m.get("res") == "other", limit)
+            if st["raised"] is not None:
+                raised(f"mate ({when})", st["raised"], mb, rp)
+                return False
+            mate_bodies[m["name"]] = bump(st["body"])
+            out.count("life_mate", f"a mate carrying another Kopf operator's marker is processed {when} ({m.get('res', 'main')} resource)")
+        return True
+
+    def judge_ordinary(phase: str, b_old: dict | None, b_new: dict, rp: dict) -> bool:
+        """From the property text alone (no reference essence): the ordinary annotations of the object — judged by ITS OWN
+        annotations — are part of the old/new a whole-object handler gets, with their exact values; a change of one calls
+        the whole-object update handlers once. (The handlers' and storages' fields never cover metadata.annotations here.)"""
+        o_new = ordinary_view(b_new, own_pfx)
+        o_old = ordinary_view(b_old, own_pfx) if b_old is not None else None
+        calls = [c for c in life.calls if c["phase"] == phase]
+        ok = True
+        for h in changing:
+            if h["field"] or h["deco"] != ("create" if b_old is None else "update"):
+                continue
+            mine = [c for c in calls if c["id"] == h["id"]]
+            if o_old is not None and o_old != o_new and len(mine) != 1:
+                out.fail("oracle", f"{phase}: an ordinary annotation of the object changed ({sorted(set(o_old.items()) ^ set(o_new.items()))[:3]}) but the "
+                                   f"whole-object update handler {h['id']} is called {len(mine)} times", dict(rp, handler=h, ordinary_old=o_old, ordinary_new=o_new),
+                         SIG_SERVED_DIFF)
+                ok = False
+            for c in mine[:1]:
+                got_new, got_old = annotations_of(c["new"]), annotations_of(c["old"])
+                bad_new = {k: v for k, v in o_new.items() if k not in got_new or not strict_eq(got_new[k], v)}
+                bad_old = {k: v for k, v in (o_old or {}).items() if k not in got_old or not strict_eq(got_old[k], v)}
+                if bad_new or bad_old:
+                    out.fail("oracle", f"{phase}: handler {h['id']} got an inexact " + ("new" if bad_new else "old") + f": the ordinary annotation(s) "
+                                       f"{sorted(bad_new or bad_old)} of the object are missing / have another value", dict(rp, handler=h, call=c), SIG_SERVED_ORD)
+                    ok = False
+        return ok
+
     body0 = copy.deepcopy(case["body"])
     rp = dict(replay)
     if not wellformed_meta(body0):
@@ -2376,7 +2734,9 @@ async def _eval_life(K: dict, E: dict, case: dict, out: Out) -> None:
                 out.keys.add(digest(["life-corrupt", case["diffbase"], case["progress"], case["handlers"], case["body"]]))
         out.count("life_outcome", "an own storage location lies below a foreign scalar (processed, comes to rest; not judged further)")
         return
-    # ---- phase A: the object is seen for the first time -------------------------------------------------------
+    # ---- phase A: the object is seen for the first time (the operator may have processed other objects before) -------------
+    if not await meet("before", rp):
+        return
     st = await life.settle(body0, "creation", limit)
     if st["raised"] is not None:
         raised("creation", st["raised"], body0, rp)
@@ -2389,6 +2749,7 @@ async def _eval_life(K: dict, E: dict, case: dict, out: Out) -> None:
         out.count("life_outcome", "the body carries a stored state from the start (not judged)")
         return
     ok = judge_calls("creation", None, e0[1], rp)
+    ok = judge_ordinary("creation", None, body0, rp) and ok
     if not attended(None, e0[1]):
         # no handler's criteria (here: the presence of its field) match the object: the operator is blind to it and stores nothing
         out.count("life_outcome", "the object matches no handler (blind: nothing stored)")
@@ -2405,6 +2766,8 @@ async def _eval_life(K: dict, E: dict, case: dict, out: Out) -> None:
         out.count("life_outcome", "ended at the first quiet probe")
         return
     # ---- phase C: somebody edits the object ------------------------------------------------------------------
+    if not await meet("between", rp):
+        return
     body1 = apply_life_edit(body, case["edit"])
     e1 = essence_of(body1)
     st = await life.settle(body1, "update", limit)
@@ -2419,6 +2782,7 @@ async def _eval_life(K: dict, E: dict, case: dict, out: Out) -> None:
               "bool<->number only" if equiv_py(e0[1], e1[1]) and not equiv_strict(e0[1], e1[1]) else
               "null<->absent only" if equiv_strict(e0[1], e1[1]) else "changed")
     ok = judge_calls("update", e0[1], e1[1], rp)
+    ok = judge_ordinary("update", body, body1, rp) and ok
     if not attended(e0[1], e1[1]):
         out.count("life_outcome", "the edited object matches no handler (blind)")
         return
@@ -2537,6 +2901,9 @@ def run_shard(args: tuple) -> Out:
     for _ in range(max(1, n_pairs // 25)):
         scase = gen_seq_case(rng)
         guarded(out, "sequence", scase, lambda: eval_seq_case(K, scase, out))
+    for _ in range(max(4, n_pairs // SERVED_PER_PAIRS)):
+        vcase = gen_served_case(rng)
+        guarded(out, "served", vcase, lambda: eval_served_case(K, vcase, out))
     eval_loop_cases(K, [gen_loop_case(rng) for _ in range(max(2, n_pairs // 12))], out)
     eval_life_cases(K, [gen_life_case(rng) for _ in range(max(4, n_pairs // LIFE_PER_PAIRS))], out)
     if not oracle_only:
@@ -2632,6 +2999,8 @@ def eval_case(K: dict, case: dict, out: Out) -> None:
         guarded(out, "essence", ecase, lambda: eval_ess_case(K, ecase, out))
     elif case.get("kind") == "sequence":
         guarded(out, "sequence", case, lambda: eval_seq_case(K, case, out))
+    elif case.get("kind") == "served":
+        guarded(out, "served", case, lambda: eval_served_case(K, case, out))
     elif case.get("kind") == "cycle":
         eval_loop_cases(K, [case], out)
     elif case.get("kind") == "life":
@@ -2721,7 +3090,7 @@ def replay(ctx: Ctx, data: dict) -> None:
 WITNESS_NAMES = {"kopf_dev_touch_invisible", "marker_first_write_witness", "adoption_loses_last_handled_witness",
                  "touch_field_cleaned", "extra_annotations_witness", "status_handler_touch_invisible", "multi_drs_own_key_invisible",
                  "multi_transitional_store_invisible", "multi_marker_restored_witness", "hidden_field_raised_witness",
-                 "hidden_status_field_raised_witness"}
+                 "hidden_status_field_raised_witness", "remembered_prefixes_witness"}
 CYCLE_NAMES = {"noop_is_stable", "creation_settles", "settled_after_store", "update_is_stored", "update_settles", "store_only_on_difference",
                "stale_last_handled_witness", "field_handler_selected", "field_handler_called", "unchanged_field_not_selected",
                "field_handler_not_selected_witness"}
